@@ -57,7 +57,8 @@ def runView (kv : List (String × String)) : String := Id.run do
   let some pd := (getS kv "D").map parseDims | return "bad-op"
   let some ss := (getS kv "S").map parseSeqs | return "bad-op"
   if ss.length != pd.length || pd.isEmpty then return "bad-op"
-  let V := cfg.native.lanes sz
+  -- a 16-byte carrier stands for complex<double>: its vectors have the lane count of double
+  let V := cfg.native.lanes (if sz == 16 then 8 else sz)
   -- what the user wrote -> seq -> the class' normaliser
   let nsq := (ss.zip pd).map fun (sb, d) =>
     let s := if sb.2 then Seq.ofInt sb.1.first else sb.1
@@ -143,7 +144,8 @@ def runDiag (kv : List (String × String)) : String := Id.run do
   let some cfg := Cfg.ofName cfgName | return "bad-op"
   let some sz := getN kv "sz" | return "bad-op"
   let some n := getN kv "n" | return "bad-op"
-  let V := cfg.native.lanes sz
+  -- a 16-byte carrier stands for complex<double>: its vectors have the lane count of double
+  let V := cfg.native.lanes (if sz == 16 then 8 else sz)
   let v := diagView n
   let es := (List.range n).map v.evalS
   let ev := (List.range (n + 1 - V)).flatMap (v.evalV V)
